@@ -25,22 +25,22 @@ structure Wait where
 calls) can block in. -/
 def callerWaits : List Wait := [
   -- waiting for a region to become available (first look, and after marking it unavailable)
-  ⟨"rpc.go", "client.getRegionAndClientForRPC", 0, "recv:ctx.Done()"⟩,
-  ⟨"rpc.go", "client.getRegionAndClientForRPC", 1, "recv:ctx.Done()"⟩,
+  ⟨"gohbase", "client.getRegionAndClientForRPC", 0, "recv:ctx.Done()"⟩,
+  ⟨"gohbase", "client.getRegionAndClientForRPC", 1, "recv:ctx.Done()"⟩,
   -- SendBatch waiting for the results of one region server's share
-  ⟨"rpc.go", "client.waitForCompletion", 0, "recv:ctx.Done()"⟩,
+  ⟨"gohbase", "client.waitForCompletion", 0, "recv:ctx.Done()"⟩,
   -- single call waiting for its result
-  ⟨"rpc.go", "sendBlocking", 0, "recv:ctx.Done()"⟩,
+  ⟨"gohbase", "sendBlocking", 0, "recv:ctx.Done()"⟩,
   -- back-off sleep of SendRPC / SendBatch / lookupRegion / lookupAllRegions
-  ⟨"rpc.go", "sleepAndIncreaseBackoff", 0, "recv:ctx.Done()"⟩,
+  ⟨"gohbase", "sleepAndIncreaseBackoff", 0, "recv:ctx.Done()"⟩,
   -- ZooKeeper lookup (meta / master address)
-  ⟨"rpc.go", "client.zkLookup", 0, "recv:ctx.Done()"⟩,
+  ⟨"gohbase", "client.zkLookup", 0, "recv:ctx.Done()"⟩,
   -- handing a batch to the writer goroutine (blocks while the queue is full)
-  ⟨"region/client.go", "client.QueueBatch", 0, "recv:ctx.Done()"⟩,
+  ⟨"region", "client.QueueBatch", 0, "recv:ctx.Done()"⟩,
   -- unbatched send: checks the call's context before writing
-  ⟨"region/client.go", "client.QueueRPC", 0, "recv:rpc.Context().Done()"⟩,
+  ⟨"region", "client.QueueRPC", 0, "recv:rpc.Context().Done()"⟩,
   -- scanner: checks the scan's context before every fetch
-  ⟨"scanner.go", "scanner.Next", 0, "recv:s.rpc.Context().Done()"⟩]
+  ⟨"gohbase", "scanner.Next", 0, "recv:s.rpc.Context().Done()"⟩]
 
 def Wait.matches (w : Wait) (s : Sel) : Bool :=
   s.file == w.file && s.fn == w.fn && s.ord == w.ord
@@ -61,23 +61,23 @@ theorem batch_wait_watches_call_context :
 
 example : callerWaits.length = 9 := by decide
 /-- negative: a wait that is not in the source is not `present` -/
-example : (Wait.mk "rpc.go" "client.getRegionAndClientForRPC" 2 "recv:ctx.Done()").present = false := by
+example : (Wait.mk "gohbase" "client.getRegionAndClientForRPC" 2 "recv:ctx.Done()").present = false := by
   decide
 /-- negative: a select without the context case is not accepted (`reestablishRegion` #0 has only
 `c.done`) -/
-example : (Wait.mk "rpc.go" "client.reestablishRegion" 0 "recv:ctx.Done()").present = false := by
+example : (Wait.mk "gohbase" "client.reestablishRegion" 0 "recv:ctx.Done()").present = false := by
   decide
 
 /-- Blocking `select`s of background goroutines, which serve no caller.  (file, fn, ord) -/
 def backgroundWaits : List (String × String × Nat) := [
   -- writer goroutine idle: waits for the first batch or for the connection to die (`c.done`)
-  ("region/client.go", "client.processRPCs", 1),
+  ("region", "client.processRPCs", 1),
   -- writer goroutine collecting a batch: waits for more calls, the flush timer or `c.done`
-  ("region/client.go", "client.processRPCs", 2),
+  ("region", "client.processRPCs", 2),
   -- scanner lease renewal goroutine: ticker or its own cancellable context (cancelled by Close/EOF)
-  ("scanner.go", "scanner.renewLoop", 0),
+  ("gohbase", "scanner.renewLoop", 0),
   -- CreateSnapshot polling loop: ticker or the caller's ctx (it has the `ctx.Done()` case, see below)
-  ("admin_client.go", "client.CreateSnapshot", 0)]
+  ("gohbase", "client.CreateSnapshot", 0)]
 
 def isCallerWait (s : Sel) : Bool := callerWaits.any fun w => w.matches s
 def nonBlocking (s : Sel) : Bool := s.cases.contains "default"
@@ -100,7 +100,7 @@ theorem create_snapshot_wait_has_ctx :
   decide
 
 /-- negative: a blocking select on no list is rejected by the predicate of `no_unlisted_blocking` -/
-example : let s : Sel := ⟨"rpc.go", "client.SendRPC", 0, ["recv:somechan"]⟩
+example : let s : Sel := ⟨"gohbase", "client.SendRPC", 0, ["recv:somechan"]⟩
     (isCallerWait s || nonBlocking s || isBackground s) = false := by decide
 /-- non-vacuity: the three classes are all inhabited -/
 example : (selects.filter isCallerWait).length = callerWaits.length ∧
@@ -118,21 +118,21 @@ structure Allowed where
   deriving Repr
 
 def allowedBare : List Allowed := [
-  ⟨⟨"rpc.go", "client.zkLookup", "send", "reschan"⟩, 1,
+  ⟨⟨"gohbase", "client.zkLookup", "send", "reschan"⟩, 1,
     "reschan is created with capacity 1 in zkLookup and receives exactly this one send"⟩,
-  ⟨⟨"client.go", "client.Close", "do", "c.closeOnce"⟩, 1,
+  ⟨⟨"gohbase", "client.Close", "do", "c.closeOnce"⟩, 1,
     "sync.Once: the body closes channels and connections and waits for nothing (C19 close_twice_noop)"⟩,
-  ⟨⟨"region/client.go", "client.QueueBatch", "send", "c.ResultChan()"⟩, 1,
+  ⟨⟨"region", "client.QueueBatch", "send", "c.ResultChan()"⟩, 1,
     "capacity-1 result channel, each call completed at most once: C03 at_most_once"⟩,
-  ⟨⟨"region/client.go", "client.fail", "do", "c.failOnce"⟩, 1,
+  ⟨⟨"region", "client.fail", "do", "c.failOnce"⟩, 1,
     "sync.Once: the body closes c.done and the net.Conn and waits for nothing"⟩,
-  ⟨⟨"region/client.go", "client.processRPCs", "recv", "timer.C"⟩, 1,
+  ⟨⟨"region", "client.processRPCs", "recv", "timer.C"⟩, 1,
     "drain after a failed timer.Stop(): the timer has fired, so the value is (or is about to be) in the capacity-1 channel; writer goroutine only"⟩,
-  ⟨⟨"region/client.go", "returnResult", "send", "c.ResultChan()"⟩, 1,
+  ⟨⟨"region", "returnResult", "send", "c.ResultChan()"⟩, 1,
     "capacity-1 result channel, each call completed at most once: C03 at_most_once"⟩,
-  ⟨⟨"region/new.go", "client.Dial", "do", "c.dialOnce"⟩, 1,
+  ⟨⟨"region", "client.Dial", "do", "c.dialOnce"⟩, 1,
     "sync.Once: the body's dial and hello write are bounded by the dial context's deadline (establisher goroutine, not a caller)"⟩,
-  ⟨⟨"region/multi.go", "multi.returnResults", "send", "c.ResultChan()"⟩, 5,
+  ⟨⟨"region", "multi.returnResults", "send", "c.ResultChan()"⟩, 5,
     "capacity-1 result channel, each call completed at most once: C03 at_most_once (and the fix validating multi responses)"⟩]
 
 def justified (b : Bare) : Bool :=
@@ -147,7 +147,7 @@ theorem allow_list_tight : ∀ a ∈ allowedBare, bareOps.contains a.op = true :
 
 example : 0 < bareOps.length ∧ (allowedBare.map (·.count)).sum = bareOps.length := by decide
 /-- negative: an unlisted bare receive is rejected -/
-example : justified (Bare.mk "rpc.go" "client.SendRPC" "recv" "ch") = false := by decide
+example : justified (Bare.mk "gohbase" "client.SendRPC" "recv" "ch") = false := by decide
 
 /-! ## Model: what a `select` does once the context is cancelled
 
@@ -237,11 +237,11 @@ def runCancelled : List Pt → Nat → IterOut
       | .took c => if c == w.ctxCase then .ctxErr n else runCancelled rest n
       | .blocked => .stuck
 
-def wGR0 : Wait := ⟨"rpc.go", "client.getRegionAndClientForRPC", 0, "recv:ctx.Done()"⟩
-def wGR1 : Wait := ⟨"rpc.go", "client.getRegionAndClientForRPC", 1, "recv:ctx.Done()"⟩
-def wQueue : Wait := ⟨"region/client.go", "client.QueueRPC", 0, "recv:rpc.Context().Done()"⟩
-def wSend : Wait := ⟨"rpc.go", "sendBlocking", 0, "recv:ctx.Done()"⟩
-def wSleep : Wait := ⟨"rpc.go", "sleepAndIncreaseBackoff", 0, "recv:ctx.Done()"⟩
+def wGR0 : Wait := ⟨"gohbase", "client.getRegionAndClientForRPC", 0, "recv:ctx.Done()"⟩
+def wGR1 : Wait := ⟨"gohbase", "client.getRegionAndClientForRPC", 1, "recv:ctx.Done()"⟩
+def wQueue : Wait := ⟨"region", "client.QueueRPC", 0, "recv:rpc.Context().Done()"⟩
+def wSend : Wait := ⟨"gohbase", "sendBlocking", 0, "recv:ctx.Done()"⟩
+def wSleep : Wait := ⟨"gohbase", "sleepAndIncreaseBackoff", 0, "recv:ctx.Done()"⟩
 
 /-- The shapes an iteration of `SendRPC` can have: which of the two availability waits are
 reached, then the queue check, the attempt, the result wait and possibly the back-off sleep. -/
